@@ -772,6 +772,10 @@ class C07(Prop):
             if t[0] not in ("TICK", "FETCH", "NOW", "INS", "DEL", "INFO", "INIT", "NEWBT"):
                 continue
             if s.get("R", [""])[0] != "ok":
+                # a backtest that was created keeps its clock: it shows dN after its last tick, it does not disappear
+                if t[0] in ("TICK", "FETCH", "NOW", "INFO") and s.get("R") == ["none"] and int(t[1]) in k:
+                    yield (n, "created-backtest-keeps-answering", f"{op.split(' A ')[0]}: backtest {t[1]} was created and ticked {k[int(t[1])][0]} times, now the server does not know it")
+                    return
                 continue
             bt = int(s["R"][1]) if t[0] in ("INIT", "NEWBT") else int(t[1])
             if bt not in k:
@@ -949,9 +953,16 @@ class C08(Prop):
 from fractions import Fraction
 
 
+class NonFinite(Exception):
+    """a clause needed the exact value of a token that is infinite or NaN: the clause does not apply to this trace"""
+
+
 def fr(tok):
     """exact rational value of a float token"""
-    return Fraction(fdec(tok))
+    x = fdec(tok)
+    if x != x or x in (float("inf"), float("-inf")):
+        raise NonFinite(tok)
+    return Fraction(x)
 
 
 def close(a, b, rtol=1e-9, scale=None):
@@ -1196,7 +1207,31 @@ class C06(Prop):
                 refused |= cur.ev == ["invalid"]
         return sent and refused
 
+    def monitor_burst(self, annot, impl):
+        """a burst of `~SEND` lines prints only the event of each order: every order answered `sent` must be in the
+        exchange's buffer, once and unchanged, at the next full observation (no reconciliation happens in between)"""
+        before, queued, start = None, [], None
+        for k, (op, out) in enumerate(zip(annot, impl)):
+            s = sections(out)
+            if op.startswith("RESET"):
+                before, queued, start = None, [], None
+            if op.startswith("~SEND"):
+                t = op.split(" @ ")[0].split()
+                if start is None:
+                    start = k
+                if s.get("EV") == ["sent"]:
+                    queued.append({"id": None, "typ": int(t[1]), "sym": t[2], "sh": t[3], "px": None if t[4] == "-" else t[4]})
+                continue
+            if "XB" in s:
+                xb = uist_orders(s["XB"][1:])
+                if queued and before is not None and not op.startswith(("CHECK", "SENDDIFF", "LIQ")):
+                    if xb != before + queued:
+                        yield (k, "forwarded-exactly-once-unchanged", f"{len(queued)} orders of the burst from line {start} were answered `sent`; the exchange buffer grew from {len(before)} to {len(xb)} orders" + ("" if len(xb) != len(before) + len(queued) else " (same number, different orders)"))
+                        return
+                before, queued, start = xb, [], None
+
     def monitor(self, stream, annot, impl):
+        yield from self.monitor_burst(annot, impl)
         for k, t, costs, prev, cur in walk_broker(annot, impl):
             if t[0] != "SEND" or prev is None:
                 continue
@@ -1436,15 +1471,22 @@ class C11(Prop):
                 return
             # cost basis from the log, per the property: since the position was last flat
             for sym, p in cur.per.items():
-                q = v = Fraction(0)
+                q = v = gq = gv = Fraction(0)     # net and gross quantity / value since the position was last flat
+                ambiguous = False                 # "flat" is an exact-zero notion: a net that binary64 may or may not round to 0
                 for x in cur.trades:
                     if x["sym"] != sym:
                         continue
                     sg = 1 if x["side"] == "B" else -1
                     q += sg * fr(x["qty"])
                     v += sg * fr(x["value"])
+                    gq += abs(fr(x["qty"]))
+                    gv += abs(fr(x["value"]))
                     if q == 0:
-                        v = Fraction(0)
+                        v = gq = gv = Fraction(0)
+                    elif abs(q) <= gq * Fraction(1, 10 ** 12):
+                        ambiguous = True
+                if ambiguous:
+                    continue
                 if q == 0:
                     if p["cb"] != "-" and stream.flavour == "whole":
                         yield (k, "cost-basis-undefined-when-flat", f"{sym}: {p['cb']}")
@@ -1455,7 +1497,10 @@ class C11(Prop):
                         yield (k, "cost-basis-defined-when-not-flat", f"{sym}: net quantity {float(q)}")
                         return
                     continue
-                if not close(fr(p["cb"]), v / q, 1e-6, 1e-6):
+                # a quotient of two differences: binary64 error is relative to the gross amounts, not to a net that
+                # nearly cancelled (a position sold down to a sliver), so the tolerance grows with that conditioning
+                cond = float(gq / abs(q)) + (float(gv / abs(v)) if v != 0 else 0.0)
+                if not close(fr(p["cb"]), v / q, 1e-6, 1e-6) and not close(fr(p["cb"]), v / q, min(1e-2, 1e-12 * cond)):
                     yield (k, "cost-basis-since-last-flat", f"{sym}: {fdec(p['cb'])} vs {float(v / q)}")
                     return
                 if p["pp"] != "-" and p["pv"] != "-" and sym in cur.hold:
@@ -1783,7 +1828,8 @@ class C15(Prop):
             if not close(mdd, best, 1e-12, 1e-300):
                 yield (k, "mdd-is-min-over-pairs", f"reported {mdd}, min over i<=j of index_j/index_i-1 = {best}")
                 return
-            if not (-1 < mdd <= 0):
+            # "never below -1": a loss of all but 1e-25 of the peak is -1 + 1e-25, which binary64 rounds to -1.0
+            if not (-1 <= mdd <= 0):
                 yield (k, "mdd-range", f"{mdd}")
                 return
             if ds not in dates or de not in dates or ds > de:
